@@ -36,21 +36,20 @@ Print Assumptions c16_progress.
 (* k-way chunking, pinned entry point: feeding ANY segmentation of a stream through the ReadMessages
    accumulation (one call per chunk, leftover carried over, stop at the first error) yields the same
    connection outcome — same messages in the same order, same error point, same leftover — as feeding
-   the stream in one piece; for every stream no prefix of which makes the pinned parser panic (F6) or hits
-   the `return nil, errInvalidHTTP` early exit of ReadMessages (an HTTP request with an empty path). *)
+   the stream in one piece; for every stream no prefix of which makes the pinned parser panic (F6).
+   (ReadMessages is modelled with the repair proposed_fixes/C16-http-empty-path-drops-pipeline: an HTTP
+   request without a command is an error like any other instead of `return nil, errInvalidHTTP`.) *)
 Theorem c16_chunking : forall chunks,
   (forall k, rm_all t38_parse (firstn k (concat chunks)) <> RMPanic) ->
-  (forall k, rm_all t38_parse (firstn k (concat chunks)) <> RMAbort) ->
   conn_run t38_parse chunks [] [] = conn_run t38_parse [concat chunks] [] [].
 Proof. exact t38_chunking. Qed.
 Print Assumptions c16_chunking.
 
-(* the same for the REPAIRED entry point (recover around readNextCommand): the panic hypothesis is gone —
+(* the same for the REPAIRED entry point (recover around readNextCommand): NO hypothesis but the length is left —
    a malformed frame is reported as the same protocol error after the same messages whatever the
    segmentation; streams shorter than 2^62 bytes. *)
 Theorem c16_chunking_fixed : forall chunks,
   len (concat chunks) < BIG ->
-  (forall k, rm_all t38_parse_fixed (firstn k (concat chunks)) <> RMAbort) ->
   conn_run t38_parse_fixed chunks [] [] = conn_run t38_parse_fixed [concat chunks] [] [].
 Proof. exact t38_fixed_chunking. Qed.
 Print Assumptions c16_chunking_fixed.
